@@ -304,15 +304,30 @@ Section Sorted.
       injection H as _ <-. intro Hs. exact (IH (Forall_inv_tail HQ) _ _ _ Hr (conv_ivariant_sorted _ _ _ _ _ _ _ (Forall_inv HQ) Hv Hs)).
   Qed.
 
+  Lemma conv_ubranches_sorted n : forall bs, Forall SortP bs -> forall i s0 rvs dn s1,
+    conv_ubranches cvf n i bs s0 = Some (rvs, dn, s1) -> SI s0 -> SI s1.
+  Proof.
+    induction bs as [|b r IH]; intros HQ i s0 rvs dn s1 H; cbn [conv_ubranches] in H.
+    - injection H as _ _ <-. exact (fun H => H).
+    - destruct (conv_xvar cvf (NSuggested n) _ b s0) as [[[vd d1] sa]|] eqn:Hv; [|discriminate].
+      destruct (conv_ubranches cvf n (S i) r sa) as [[[vs2 d2] s2]|] eqn:Hr; [|discriminate].
+      injection H as _ _ <-. intro Hs.
+      exact (IH (Forall_inv_tail HQ) _ _ _ _ _ Hr (conv_xvar_sorted _ _ _ _ _ _ _ (Forall_inv HQ) Hv Hs)).
+  Qed.
+
   Lemma conv_kind_sorted items props req ap oneo k nm s0 te s1 :
     Forall SortP items -> Forall (fun kv => SortP (snd kv)) props -> OForall SortP ap ->
-    OForall (Forall (PropP SortP)) oneo ->
+    OForall (Forall (fun b => SortP b /\ PropP SortP b)) oneo ->
     conv_kind cls rid cvf k nm items props req ap oneo s0 = Some (te, s1) -> SI s0 -> SI s1 /\ SD te.
   Proof.
-    intros HPi HPp HPa HPo H Hs.
+    intros HPi HPp HPa HPo0 H Hs. destruct (arms_props SortP oneo HPo0) as [HPo HPoB].
     destruct k as [| | | |mx mn pat|r|raws|deny| | |c|c|r| |tg]; cbn [conv_kind] in H.
-    15: { destruct tg as [|tg|tg ct|]; try discriminate; (destruct (type_name cls nm); [|discriminate]);
-            (destruct oneo as [bs|]; [|discriminate]).
+    15: { destruct tg as [|tg|tg ct|]; (destruct (type_name cls nm); [|discriminate]);
+            (destruct oneo as [bs|]; [|discriminate]); cbn [OForall] in HPo, HPoB.
+          4: { destruct (conv_ubranches cvf u 0 bs s0) as [[[rvs deny] sa]|] eqn:Hb; [|discriminate].
+               destruct (_ <=? _)%nat; [discriminate|].
+               unfold mk_tagged in H. destruct (Sanitize.variant_idents cls (map fst rvs)); try discriminate.
+               injection H as <- <-. split; [exact (conv_ubranches_sorted _ _ HPoB _ _ _ _ _ Hb Hs)|exact I]. }
           - destruct (conv_xbranches cvf nm bs s0) as [[[rvs deny] sa]|] eqn:Hb; [|discriminate].
             unfold mk_tagged in H. destruct (Sanitize.variant_idents cls (map fst rvs)); try discriminate.
             injection H as <- <-. split; [exact (conv_xbranches_sorted _ _ HPo _ _ _ _ Hb Hs)|exact I].
@@ -627,16 +642,31 @@ Section Slots.
       injection H as _ <-. eapply frame_trans; [exact (conv_ivariant_frame _ _ _ _ _ _ _ (Forall_inv HQ) Hv)|exact (IH (Forall_inv_tail HQ) _ _ _ Hr)].
   Qed.
 
+  Lemma conv_ubranches_frame n : forall bs, Forall FrameP bs -> forall i s0 rvs dn s1,
+    conv_ubranches cvf n i bs s0 = Some (rvs, dn, s1) -> frame s0 s1.
+  Proof.
+    induction bs as [|b r IH]; intros HQ i s0 rvs dn s1 H; cbn [conv_ubranches] in H.
+    - injection H as _ _ <-. apply frame_refl.
+    - destruct (conv_xvar cvf (NSuggested n) _ b s0) as [[[vd d1] sa]|] eqn:Hv; [|discriminate].
+      destruct (conv_ubranches cvf n (S i) r sa) as [[[vs2 d2] s2]|] eqn:Hr; [|discriminate].
+      injection H as _ _ <-. eapply frame_trans; [exact (conv_xvar_frame _ _ _ _ _ _ _ (Forall_inv HQ) Hv)|].
+      exact (IH (Forall_inv_tail HQ) _ _ _ _ _ Hr).
+  Qed.
+
   Lemma conv_kind_frame items props req ap oneo k nm s0 te s1 :
     Forall FrameP items -> Forall (fun kv => FrameP (snd kv)) props -> OForall FrameP ap ->
-    OForall (Forall (PropP FrameP)) oneo ->
+    OForall (Forall (fun b => FrameP b /\ PropP FrameP b)) oneo ->
     conv_kind cls rid cvf k nm items props req ap oneo s0 = Some (te, s1) -> frame s0 s1.
   Proof.
-    intros HPi HPp HPa HPo H.
+    intros HPi HPp HPa HPo0 H. destruct (arms_props FrameP oneo HPo0) as [HPo HPoB].
     destruct k as [| | | |mx mn pat|r|raws|deny| | |c|c|r| |tg]; cbn [conv_kind] in H;
       try (injection H as _ <-; apply frame_refl).
-    10: { destruct tg as [|tg|tg ct|]; try discriminate; (destruct (type_name cls nm); [|discriminate]);
-            (destruct oneo as [bs|]; [|discriminate]).
+    10: { destruct tg as [|tg|tg ct|]; (destruct (type_name cls nm); [|discriminate]);
+            (destruct oneo as [bs|]; [|discriminate]); cbn [OForall] in HPo, HPoB.
+          4: { destruct (conv_ubranches cvf u 0 bs s0) as [[[rvs deny] sa]|] eqn:Hb; [|discriminate].
+               destruct (_ <=? _)%nat; [discriminate|].
+               destruct (mk_tagged cls u TagUntagged rvs deny); [|discriminate]. injection H as _ <-.
+               exact (conv_ubranches_frame _ _ HPoB _ _ _ _ _ Hb). }
           - destruct (conv_xbranches cvf nm bs s0) as [[[rvs deny] sa]|] eqn:Hb; [|discriminate].
             destruct (mk_tagged cls u TagExternal rvs deny); [|discriminate]. injection H as _ <-.
             exact (conv_xbranches_frame _ _ HPo _ _ _ _ Hb).
